@@ -157,22 +157,35 @@ def run(ctx):
 
 
 def translator_tie(ctx):
-    """(T) regenerate the pattern term from yaml_templates.go of the current tree and compile
-    coq/ties/Tie_C16.v (gen_pattern = hand_pattern, gen_anchored = true and their consequences)
-    against it.  A broken tie is reported; the correspondence run that follows looks for a
-    failing input."""
-    src = os.path.join(ctx.copy_repo(), "gconfig", "yaml_templates.go")
-    ok, detail = ctx.translator_tie("xlate_tmplre", ["-src", src], "TmplReGen", "Tie_C16")
-    ctx.log("translator tie:", "OK" if ok else "BROKEN", "-", detail.splitlines()[0])
-    if not ok:
-        gen = os.path.join(ctx.gen, "TmplReGen.v")
-        ctx.cov["translator_tie"] = {"status": "BROKEN", "detail": detail[-600:]}
-        ctx.pending_tie_report = ({"unchecked": "translator tie Tie_C16 (the regular expression in gconfig/yaml_templates.go "
-                                 "is no longer the one the theorems are about)",
-                    "generated": open(gen).read()[-1500:] if os.path.isfile(gen) else None,
-                    "detail": detail[-2000:]},
-                   {"kind": "translator_tie"})
-    return ok
+    """(T) two ties, both regenerated from gconfig/yaml_templates.go of the current tree:
+    Tie_C16 — the pattern literal as a regular-expression term (gen_pattern = hand_pattern,
+    gen_anchored = true and their consequences); Tie_C16_resolve — MatchAndResolve translated to
+    Gallina equals the three-way resolution resolve_str.  A broken tie is reported after the
+    correspondence run unless that run found a concrete failing input."""
+    repo = ctx.copy_repo()
+    ok1, d1 = ctx.translator_tie("xlate_tmplre", ["-src", os.path.join(repo, "gconfig", "yaml_templates.go")],
+                                 "TmplReGen", "Tie_C16")
+    tie1 = ctx.cov.get("translator_tie")
+    ok2, d2 = ctx.translator_tie("xlate_gconf", ["-src", os.path.join(repo, "gconfig"), "-set", "templates"],
+                                 "TmplGen", "Tie_C16_resolve")
+    ctx.cov["translator_tie"] = {"pattern": tie1 if ok1 else {"status": "BROKEN", "detail": d1[-600:]},
+                                 "MatchAndResolve": ctx.cov.get("translator_tie") if ok2 else
+                                 {"status": "BROKEN", "detail": d2[-600:]}}
+    ctx.log("translator ties: pattern", "OK" if ok1 else "BROKEN", "-", d1.splitlines()[0],
+            "| MatchAndResolve", "OK" if ok2 else "BROKEN", "-", d2.splitlines()[0])
+    if not (ok1 and ok2):
+        gens = {}
+        for n in ("TmplReGen.v", "TmplGen.v"):
+            g = os.path.join(ctx.gen, n)
+            if os.path.isfile(g):
+                gens[n] = open(g).read()[-1500:]
+        ctx.pending_tie_report = (
+            {"unchecked": "translator tie " + ", ".join(t for t, o in (("Tie_C16 (the regular expression)", ok1),
+                                                                      ("Tie_C16_resolve (MatchAndResolve)", ok2)) if not o)
+                          + ": gconfig/yaml_templates.go is no longer what the theorems are about",
+             "generated": gens, "detail": ((d1 if not ok1 else "") + "\n" + (d2 if not ok2 else ""))[-3000:]},
+            {"kind": "translator_tie"})
+    return ok1 and ok2
 
 
 def replay(ctx, path):
